@@ -67,6 +67,55 @@ type Term struct {
 	P1   int // extract hi / extend amount / int2bv width
 	P2   int // extract lo
 	Hint string
+	h1   uint64 // structural hash (lazily computed by Key; terms are immutable)
+	h2   uint64
+	hok  uint32
+}
+
+// Key is a 128-bit structural hash: equal keys mean (up to hash collision) structurally equal terms.
+type Key struct{ A, B uint64 }
+
+func mix(h, v uint64) uint64 {
+	h ^= v
+	h *= 0x100000001b3
+	h ^= h >> 29
+	return h
+}
+
+func (t *Term) Key() Key {
+	if atomic.LoadUint32(&t.hok) == 1 {
+		return Key{atomic.LoadUint64(&t.h1), atomic.LoadUint64(&t.h2)}
+	}
+	a, b := uint64(0xcbf29ce484222325), uint64(0x9e3779b97f4a7c15)
+	feed := func(v uint64) { a = mix(a, v); b = mix(b, v*0x9e3779b97f4a7c15+1) }
+	for i := 0; i < len(t.Op); i++ {
+		feed(uint64(t.Op[i]))
+	}
+	feed(uint64(t.Sort.K)<<8 | uint64(t.Sort.W))
+	feed(t.U)
+	feed(uint64(t.P1)<<16 | uint64(t.P2))
+	for i := 0; i < len(t.S); i++ {
+		feed(uint64(t.S[i]) + 256)
+	}
+	if t.N != nil {
+		for _, c := range t.N.String() {
+			feed(uint64(c) + 512)
+		}
+	}
+	if t.R != nil {
+		for _, c := range t.R.String() {
+			feed(uint64(c) + 768)
+		}
+	}
+	for _, x := range t.Args {
+		k := x.Key()
+		feed(k.A)
+		feed(k.B)
+	}
+	atomic.StoreUint64(&t.h1, a)
+	atomic.StoreUint64(&t.h2, b)
+	atomic.StoreUint32(&t.hok, 1)
+	return Key{a, b}
 }
 
 var idCtr uint64
